@@ -20,7 +20,16 @@ CONSTANTS Depth,      \* operations per behaviour
 VARIABLE hist
 gvars == <<vars, hist>>
 
-Exp == [verdict |-> last.verdict, tip |-> tip, chain |-> ChainOf(tip), delta |-> last.delta,
+\* C08 names the possible answers but not an order among them: when a submission is refusable for several reasons
+\* (marked invalid and a fork that is too deep, ...), any of them is the reference verdict
+RefusalReasons(b) ==
+    (IF parent[b] \notin acc THEN {"unknown"} ELSE {}) \cup
+    (IF b \in acc THEN {"known"} ELSE {}) \cup
+    (IF b \in invalid THEN {"invalid"} ELSE {}) \cup
+    (IF /\ parent[b] \in acc /\ b \notin acc /\ Children(acc, parent[b]) # {}
+        /\ Height(tip) - Height(parent[b]) > MaxDepth THEN {"toodeep"} ELSE {})
+Exp == [alts |-> IF last.op = "submit" /\ last.verdict # "ok" THEN RefusalReasons(last.b) ELSE {},
+        verdict |-> last.verdict, tip |-> tip, chain |-> ChainOf(tip), delta |-> last.delta,
         acc |-> acc, unsure |-> unsure, floorB |-> floorB, invalid |-> invalid,
         best |-> Anc(tip), nsubs |-> Len(subs), ever |-> ever, maxtips |-> MaxWorkTips(acc),
         savedWork |-> IF disk.has THEN CumWork(disk.tip) ELSE 0]
